@@ -84,6 +84,11 @@ func runC02(c *an.Ctx) {
 	c.Min("R02.7", 2)
 	r028(c, "R02.8")
 	c.Min("R02.8", 2)
+	// write callbacks run before the write lock is taken, on the message that is stored: one that edits `old` in place
+	// (instead of a copy) has changed the stored value before the attempt is decided, so a write that then loses the race
+	// and reports Aborted has left its edits behind (E2, shared with R07.1, restricted to interceptor-shaped functions)
+	runE2(c, "R02.9", isWriteCallback)
+	c.Min("R02.9", 5)
 	c.Min("R02.6", 2)
 	c.Min("R02.1", 5)
 	c.Min("R02.2", 2)
@@ -794,4 +799,16 @@ func r028(c *an.Ctx, rule string) {
 		}
 	}
 	c.Count("read_callbacks", n)
+}
+
+// isWriteCallback: fn has the shape of a write interceptor - func(old, new proto.Message) - or is a closure inside one.
+func isWriteCallback(fn *ssa.Function) bool {
+	for f := fn; f != nil; f = f.Parent() {
+		sig := f.Signature
+		if sig.Recv() == nil && sig.Params().Len() == 2 && sig.Results().Len() == 0 &&
+			strings.HasSuffix(sig.Params().At(0).Type().String(), "proto.Message") && strings.HasSuffix(sig.Params().At(1).Type().String(), "proto.Message") {
+			return true
+		}
+	}
+	return false
 }
